@@ -8,6 +8,8 @@ import (
 	"net"
 	"time"
 
+	"golang.org/x/net/ipv4"
+
 	"verif/vrt"
 )
 
@@ -183,3 +185,67 @@ func (s *vfSock) String() string                     { return fmt.Sprintf("sock(
 func (s *vfSock) SetReadBuffer(bytes int) error  { return nil }
 func (s *vfSock) SetWriteBuffer(bytes int) error { return nil }
 func (s *vfSock) SetDSCP(int) error              { return nil }
+
+// ---------------------------------------------------------------------------------------------
+// Virtual batch connection: the Linux recvmmsg/sendmmsg paths (readloop_linux.go, tx_linux.go) on the virtual
+// network. The transformer makes newBatchConn ask vfBatchConnHook first; with vfBatchMode on, a virtual socket gets
+// a batch wrapper and the library takes its batch read loops and batch transmit path. ReadBatch returns every
+// datagram queued at that moment (up to len(ms)) in one call, as recvmmsg does for a reader that is behind.
+
+var vfBatchMode bool
+
+// vfBatchPartial makes WriteBatch accept only the first message of every second multi-message batch (sendmmsg may
+// return a short count; the caller has to loop).
+var vfBatchPartial bool
+
+type vfBatch struct {
+	s     *vfSock
+	calls int
+}
+
+func vfBatchConnHook(conn net.PacketConn) batchConn {
+	if s, ok := conn.(*vfSock); ok && vfBatchMode {
+		return &vfBatch{s: s}
+	}
+	return nil
+}
+
+func (b *vfBatch) ReadBatch(ms []ipv4.Message, flags int) (int, error) {
+	s := b.s
+	s.mu.Lock()
+	defer s.mu.Unlock()
+	for {
+		if s.readErr != nil {
+			return 0, s.readErr
+		}
+		if s.closed {
+			return 0, errVfClosed
+		}
+		if len(s.q) > 0 {
+			n := 0
+			for n < len(ms) && len(s.q) > 0 {
+				d := s.q[0]
+				s.q = s.q[1:]
+				s.nread++
+				ms[n].N = copy(ms[n].Buffers[0], d.data)
+				ms[n].Addr = d.from
+				n++
+			}
+			return n, nil
+		}
+		s.cond.Wait()
+	}
+}
+
+func (b *vfBatch) WriteBatch(ms []ipv4.Message, flags int) (int, error) {
+	b.calls++
+	for i := range ms {
+		if _, err := b.s.WriteTo(ms[i].Buffers[0], ms[i].Addr); err != nil {
+			return i, err
+		}
+		if vfBatchPartial && len(ms) > 1 && b.calls%2 == 0 {
+			return 1, nil
+		}
+	}
+	return len(ms), nil
+}
